@@ -80,6 +80,9 @@ var (
 	TaskPanic      string // a panic inside a started goroutine (would kill the real process)
 	SchedTrace     []string
 	SelectDeviated int // selects whose cases were polled in another than the source order
+	// SchedFixed: always the first candidate / source order (runs that are compared call by call with the baseline,
+	// e.g. "the same I/O error at the k-th file operation", need the baseline's schedule)
+	SchedFixed bool
 	NumCPUOverride = []int{4, 1, 16}
 )
 
@@ -473,7 +476,7 @@ func schedLoop() {
 		idx := 0
 		if len(ready) > 1 {
 			SchedPicks++
-			if T != nil {
+			if T != nil && !SchedFixed {
 				idx = T.Choose(len(ready), "go-sched")
 			}
 			if idx != 0 {
@@ -527,7 +530,7 @@ func NewSelect(n int, hasDefault bool) *Select {
 	gs.mu.Lock()
 	on := gs.on && !gs.gaveUp && !gs.off && len(gs.tasks) > 1
 	gs.mu.Unlock()
-	if on && T != nil && n > 1 {
+	if on && T != nil && n > 1 && !SchedFixed {
 		for i := 0; i < n-1; i++ {
 			j := i + T.Choose(n-i, "select-order")
 			if j != i {
